@@ -95,6 +95,13 @@ def kindOfAdapterCls (cls : String) : Option Kind :=
 /-- the kind of annotation a declared solution type produces (`none`: empty labels) -/
 def declaredKind (ty : String) : Option Kind := (ctorOfType ty).bind fun c => kindOfAdapterCls c.adapterCls
 
+/-- whether the constructor selected for a declared type builds its `ComplexSolution` with
+`peak_values=True` -/
+def declaredPeak (ty : String) : Bool :=
+  match ctorOfType ty with
+  | some c => (c.solutionLits.lookup "peak_values").getD false
+  | none => false
+
 /-- `{k: v for k, v in data.items() if k in signature(solution_fcn).parameters}` (keys only;
 `schematic` is passed separately) -/
 def filterParams (ty : String) (keys : List String) : List String :=
